@@ -83,9 +83,8 @@ def thread_body(tid, prog, sync, out):
     import asynq.profiler as profiler
     res = out[tid] = {}
     try:
-        scheduler.reset()
-        batching._debug_batch_state.batches.clear()
-        profiler.reset()
+        # no reset of any kind here: a fresh thread must find fresh per-thread state by itself (an explicit
+        # profiler.reset() / scheduler.reset() would hide state that is shared until first reset)
         res["scheduler"] = scheduler.get_scheduler()
         env = engine.run_program(copy.deepcopy(prog), reset=False, capture=False, on_step=sync)
         tr = engine.trace(env)
@@ -98,12 +97,28 @@ def thread_body(tid, prog, sync, out):
         runs = []
         shared = out["__shared__"]
 
+        holder = tid % 2 == 0
+
         @A()
         def use():
+            # even threads hold an in-flight deduplicated task across sync points and ask for it again;
+            # odd threads call dirty() for the same key in between (their own scope: nothing of ours may vanish)
+            if holder:
+                a = shared.asynq(1, runs, me, sync)
+                if sync is not None:
+                    sync()
+                    sync()
+                b = shared.asynq(1, runs, me, sync)
+                va, vb = yield a, b
+                return [va, vb, a is b]
+            if sync is not None:
+                sync()
+            shared.dirty(1)
+            if sync is not None:
+                sync()
             a = shared.asynq(1, runs, me, sync)
-            b = shared.asynq(1, runs, me, sync)
-            va, vb = yield a, b
-            return [va, vb, a is b]
+            va = yield a
+            return [va, va, True]
         res["dedupe"] = [use(), len(runs)]
         stats = profiler.flush()
         # counter and function / batch type (the argument reprs contain addresses and thread names)
@@ -137,12 +152,12 @@ def make_shared():
     return shared
 
 
-def run_solo(prog, shared):
+def run_solo(prog, shared, tid):
     out = {"__shared__": shared}
-    t = threading.Thread(target=thread_body, args=(0, prog, None, out))
+    t = threading.Thread(target=thread_body, args=(tid, prog, None, out))
     t.start()
     t.join(60)
-    return out[0]
+    return out[tid]
 
 
 def comparable(res, me):
@@ -165,7 +180,7 @@ def check(case, ctx):
     old_switch = sys.getswitchinterval()
     try:
         shared = make_shared()
-        solo = [comparable(run_solo(p, shared), "solo") for p in progs]
+        solo = [comparable(run_solo(p, shared, i), "solo") for i, p in enumerate(progs)]
         DeduplicateDecorator.tasks.clear()
         rounds = 1 if case["mode"] == "turnstile" else case["repeat"]
         flushing = 0
